@@ -243,9 +243,19 @@ class MDOChain(ProcessDiscipline):
 
         diff_ios = (set(input_names), set(output_names))
         if self._last_diff_inouts != diff_ios:
-            traverse_add_diff_io(
-                self._coupling_structure.graph.graph, input_names, output_names
-            )
+            if len(set(self.disciplines)) < len(self.disciplines):
+                # A discipline placed at several positions of the chain
+                # reads at a position what it computed at a former one;
+                # the graph of the disciplines has one node per discipline
+                # and no edge from a discipline to itself:
+                # it cannot be used to discard Jacobians.
+                for discipline in self.disciplines:
+                    discipline.add_differentiated_inputs()
+                    discipline.add_differentiated_outputs()
+            else:
+                traverse_add_diff_io(
+                    self._coupling_structure.graph.graph, input_names, output_names
+                )
             self._last_diff_inouts = diff_ios
 
     def _compute_jacobian(
